@@ -12,8 +12,7 @@ Inductive oobs :=
 
 Definition raw_eqb (a b : raw) : bool :=
   match a, b with
-  | RRaise x, RRaise y => Bool.eqb x y
-  | RRaiseOther, RRaiseOther => true
+  | RRaise, RRaise | RRaiseOther, RRaiseOther => true
   | RVal x, RVal y => vtree_eqb x y
   | _, _ => false
   end.
@@ -27,11 +26,10 @@ Definition loc_ok (model : option string) (seen : option string) : bool :=
 Definition outcome_ok (o : outcome) (cls : nat) (d : option Z) (m : string) (l : option string) : bool :=
   Nat.eqb (sev o) cls && opt_eqb Z.eqb (delay o) d && text_ok (msg o) m && loc_ok (loc o) l.
 
-Definition pred_ok (model : res (option outcome)) (seen : oobs) : bool :=
+Definition pred_ok (model : option outcome) (seen : oobs) : bool :=
   match model, seen with
-  | Done None, ONone => true
-  | Done (Some o), OOut c d m l => outcome_ok o c d m l
-  | Raised _, ORaised => true
+  | None, ONone => true
+  | Some o, OOut c d m l => outcome_ok o c d m l
   | _, _ => false
   end.
 
@@ -65,8 +63,9 @@ Inductive case :=
 | CRf (pre : option (list vtree)) (pre_raw : option raw) (locals : option raw) (loc : string)
       (touched : bool) (o : oobs) (t : list site)
 (* a real readonly ResourceFunction against the in-memory cluster that holds its object (so the
-   Kubernetes part returns the object after [ncalls] API calls): preconditions, locals,
-   postconditions (evaluated elements + what celpy did), return; observed result, sites *)
+   Kubernetes part returns the object after [ncalls] uses of the API, kind lookups included):
+   preconditions, locals, postconditions (evaluated elements + what celpy did), return;
+   observed result, sites *)
 | CRfc (pre : option (list vtree)) (pre_raw : option raw) (locals : option raw)
        (post : option (list vtree)) (post_raw : option raw) (ret : option raw) (loc : string)
        (ncalls : nat) (o : oobs) (t : list site).
@@ -78,12 +77,11 @@ Definition raw_agrees (es : option (list vtree)) (r : option raw) : bool :=
   | _, None => true
   end.
 
-Definition rf_ok (model : res (option (uoutcome vtree))) (seen : oobs) : bool :=
+Definition rf_ok (model : option (uoutcome vtree)) (seen : oobs) : bool :=
   match model, seen with
-  | Done (Some (UVal v)), OVal w => vtree_eqb v w
-  | Done (Some (UOut o)), OOut c d m l => outcome_ok o c d m l
-  | Done None, OVal VNull => true
-  | Raised _, ORaised => true
+  | Some (UVal v), OVal w => vtree_eqb v w
+  | Some (UOut o), OOut c d m l => outcome_ok o c d m l
+  | None, OVal VNull => true
   | _, _ => false
   end.
 
@@ -122,7 +120,7 @@ Definition check_case (c : case) : bool :=
       raw_agrees pre pre_raw && raw_agrees post post_raw &&
       let '(r, t', calls) := reconcile_rf unit krm f loc in
       list_eqb site_eqb t' t && rf_ok r o &&
-      (* when the Kubernetes part was not entered there must be no call at all *)
+      (* when the Kubernetes part was not entered there must be no use of the API at all *)
       Nat.eqb (List.length calls) (if existsb (site_eqb SResource) t' then ncalls else 0) &&
       (if existsb (site_eqb SResource) t' then true else Nat.eqb ncalls 0)
   end.
